@@ -624,7 +624,17 @@ def gen_session_cases(rnd, k):
             assigns.append({"path": path, "value": v, "node": node, "bits": bits})
         if not assigns:
             continue
-        cases.append({"type": t, "mode": mode, "consts": g.consts or {"_": 0}, "ctors": ctors, "assigns": assigns,
+        grows = []
+        for j, f in enumerate(t["fields"]):
+            if f["type"]["k"] == "arr" and f["type"]["len"]["k"] != "fixed" and f["type"]["elem"]["k"] not in ("char", "wchar") and not f["bits"]:
+                for _ in range(2):
+                    try:
+                        v = A.gen_value(rnd, f["type"]["elem"], mode, g.consts, nonzero=f["type"]["len"]["k"] == "null")
+                    except Exception:  # noqa: BLE001
+                        continue
+                    if not A.has_nan(v):
+                        grows.append({"j": j + 1, "value": v})
+        cases.append({"type": t, "mode": mode, "consts": g.consts or {"_": 0}, "ctors": ctors, "assigns": assigns, "grows": grows,
                       "defs": _defs(t, g.consts)})
     return cases
 
@@ -661,7 +671,7 @@ def replay_tlc_sessions(rep, rnd, ncases, num, depth):
     if not behaviours:
         raise MachineryError(f"Gen_Session produced no behaviours: {res.error or res.out[-800:]}")
     nsteps = 0
-    acts = {"construct": 0, "assign": 0}
+    acts = {"construct": 0, "assign": 0, "grow": 0}
     for beh in behaviours:
         c = cases[beh["case"] - 1]
         t, mode = c["type"], c["mode"]
@@ -686,6 +696,10 @@ def replay_tlc_sessions(rep, rnd, ncases, num, depth):
                         real_kw[rf._name] = None if v == codec.NONE_V else A.unpint(v) if (f["bits"] and f["type"]["k"] != "enum") \
                             else A.unproject(v, f["type"], rf.type)
                     live.append(T(*real_args, **real_kw))
+                elif st["act"] == "grow":
+                    gr = c["grows"][st["c"] - 1]
+                    f, rf = t["fields"][gr["j"] - 1], T.__fields__[gr["j"] - 1]
+                    getattr(live[st["i"] - 1], rf._name).append(A.unproject(gr["value"], f["type"]["elem"], rf.type.type))
                 else:
                     asg = c["assigns"][st["c"] - 1]
                     real_set(live[st["i"] - 1], T, asg["path"], t, asg["value"], asg["node"], asg["bits"])
